@@ -50,6 +50,20 @@ def check_membership(ctx, case):
             ctx.fail("after a first query on {!r} the sequence is replaced by {!r}; {!r} in record is then {} but the "
                      "query {} in a rotation of the new sequence".format(
                          wd, new, q, again, "occurs" if expected_in(new, q) else "does not occur"), case)
+    # a record whose sequence is edited in place (MutableSeq) between two queries
+    if len(wd) >= 2:
+        from Bio.Seq import MutableSeq
+        mrec = CircularRecord(MutableSeq(wd), id="m")
+        first = q in mrec
+        if first != expected_in(wd, q):
+            ctx.fail("{!r} in a CircularRecord holding MutableSeq({!r}) is {}".format(q, wd, first), case)
+        i = len(wd) // 2
+        new_letter = "A" if wd[i].upper() != "A" else "C"
+        mrec.seq[i] = new_letter
+        edited = wd[:i] + new_letter + wd[i + 1:]
+        if (q in mrec) != expected_in(edited, q):
+            ctx.fail("after editing letter {} of a MutableSeq record in place ({!r} -> {!r}), {!r} in record is {}".format(
+                i, wd, edited, q, q in mrec), case)
     ctx.case(case, nontrivial=(len(q) >= 1 and len(wd) >= 2), key=[wd, q])
     ctx.op(("IN", wd, q), case)
 
@@ -100,8 +114,13 @@ def check_object_behaviour(ctx, case):
     # copy-on-wrap isolation
     src = impl.mk_record(CRec(1, wd, feats_from_json(case["feats"]), [5]), circular=False)
     src.dbxrefs = ["a"]
+    src.letter_annotations["pairs"] = [[i, i + 1] for i in range(len(wd))]      # per-letter values that are mutable
     before = (impl.canon_record(src), list(src.dbxrefs), dict(src.annotations))
     cp = CircularRecord(src)
+    if len(wd) >= 1:
+        cp.letter_annotations["pairs"][0][0] = 999
+        if src.letter_annotations["pairs"][0][0] == 999:
+            ctx.fail("editing a per-letter value of a wrapped copy reaches the original record", case)
     cp.features.append(impl.mk_feature(impl.Feat(1, "u1", (), ((0, 1, 1),))))
     for f in cp.features:
         f.qualifiers["label"] = ["edited"]
